@@ -18,7 +18,8 @@ RULE = ("(lattice, enumerated completely in both tiers) input kind {python float
         "as np.array(input, dtype, ndmin); integer/bool with constant=False raises; non-real dtypes raise while tracking (and are accepted under "
         "no_autodiff); copy()/astype() are detached (no creator, no base, no gradient) with copied data. (creation routines) seeded arguments "
         "for zeros/ones/empty/full/*_like/arange/linspace/logspace/geomspace/eye/identity compared with the NumPy namesake (values, shape, "
-        "dtype; float32 default for zeros/ones/empty). Non-trivial: the call returned; distinct = lattice cell / (routine, argument kinds).")
+        "dtype; float32 default for zeros/ones/empty); every eighth case: mygrad.random.rand/randn/randint/random/random_sample/ranf/sample "
+        "after mygrad.random.seed(s) against numpy.random after numpy.random.seed(s) (values, shape, dtype, constant flag, fresh memory). Non-trivial: the call returned; distinct = lattice cell / (routine, argument kinds).")
 ASSUMPTIONS = ["np.asarray / np.array on the same input decide dtype, shape and whether memory can be shared",
                "inheritance of the constant flag by astensor(t, dtype=other) is recorded, not judged (the statement does not settle it)"]
 KINDS = ["pyfloat", "pyint", "pybool", "list", "nested", "arrC", "arrF", "arrview", "arrRO", "arr32", "arrint", "t_leaf", "t_const", "t_int",
@@ -35,8 +36,8 @@ METHODS = [c for c in itertools.product(["t_leaf", "t_const", "t_int", "t_graph"
            if not (c[1] == "copy" and (c[2] is not None or c[4] is False))]
 N_LAT = len(LATTICE) + len(METHODS)
 TIERS = {"quick": {"cases": N_LAT + 8000}, "thorough": {"cases": N_LAT + 600000}}
-FLOORS = {"quick": {"lattice_cells": N_LAT, "model_checks": 15000, "creation_compared": 1500},
-          "thorough": {"lattice_cells": N_LAT, "model_checks": 15000, "creation_compared": 300000}}
+FLOORS = {"quick": {"lattice_cells": N_LAT, "model_checks": 15000, "creation_compared": 1500, "random_compared": 500},
+          "thorough": {"lattice_cells": N_LAT, "model_checks": 15000, "creation_compared": 300000, "random_compared": 30000}}
 ROUTINES = ["zeros", "ones", "empty", "full", "zeros_like", "ones_like", "empty_like", "full_like", "arange", "linspace", "logspace", "geomspace", "eye", "identity"]
 
 
@@ -45,6 +46,15 @@ def gen_case(rng, cfg, idx):
         return {"kind": "cell", "cell": list(LATTICE[idx])}
     if idx < N_LAT:
         return {"kind": "meth", "cell": list(METHODS[idx - len(LATTICE)])}
+    if idx % 8 == 7:
+        # mygrad.random: the seeded namesakes of numpy.random
+        r = rng.choice(["rand", "randn", "randint", "random", "random_sample", "ranf", "sample"])
+        shp = rng.choice([[], [0], [3], [2, 3], [1, 2, 2]])
+        a = {"routine": r, "shape": shp, "constant": rng.choice([None, True, False]), "seed": rng.randrange(1 << 20)}
+        if r == "randint":
+            a["low"], a["high"] = rng.choice([[0, 5], [-3, 3], [7, None]])
+            a["dtype"] = rng.choice(["int64", "int32", "int8"])
+        return {"kind": "random", "args": a}
     r = rng.choice(ROUTINES)
     dt = rng.choice([None, None, "float32", "float64", "int64", "float16", "bool", "int8"])
     shape = rng.choice([[], [0], [3], [2, 3], [1, 2, 2], 4])
@@ -387,6 +397,39 @@ def run_case(case):
         run_meth(case["cell"], cnt, viol)
         cnt["lattice_cells"] = 1
         sig = "meth:" + repr(case["cell"])
+    elif case["kind"] == "random":
+        a = case["args"]
+        r, shp = a["routine"], tuple(a["shape"])
+        if r in ("rand", "randn"):
+            pos, kw = list(shp), {}
+        elif r == "randint":
+            pos, kw = [a["low"], a["high"], shp, np.dtype(a["dtype"])], {}
+        else:
+            pos, kw = [shp if shp else None], {}
+        kwm = dict(kw)
+        if a["constant"] is not None and r != "randint":
+            kwm["constant"] = a["constant"]
+        np.random.seed(a["seed"])
+        want = getattr(np.random, r)(*pos, **kw)
+        mg.random.seed(a["seed"])
+        try:
+            got = getattr(mg.random, r)(*pos, **kwm)
+        except Exception as e:
+            viol.append({"monitor": "creation", "mech": f"random-raises:{r}", "msg": f"mg.random.{r}({pos}, {kwm}) raised {type(e).__name__}: {e}"})
+            got = None
+        if got is not None:
+            cnt["random_compared"] = cnt.get("random_compared", 0) + 1
+            w = np.asarray(want)
+            expect_const = (a["constant"] is True) or w.dtype.kind != "f"
+            if not isinstance(got, mg.Tensor) or got.dtype != w.dtype or got.shape != w.shape or not np.array_equal(got.data, w):
+                viol.append({"monitor": "creation", "mech": f"random-differs:{r}", "msg": f"mg.random.{r}({pos}) after seed({a['seed']}) differs from numpy.random.{r}"})
+            elif got.constant != expect_const or got.creator is not None or got.base is not None or got.grad is not None:
+                viol.append({"monitor": "creation", "mech": f"random-flags:{r}", "msg": f"mg.random.{r}(constant={a['constant']}) -> constant={got.constant}, creator={got.creator}, base={got.base}"})
+            else:
+                got2 = getattr(mg.random, r)(*pos, **kwm)
+                if got.size and np.shares_memory(got.data, got2.data):
+                    viol.append({"monitor": "creation", "mech": f"random-aliases:{r}", "msg": "two calls share memory"})
+        sig = "random:" + repr((r, str(shp), a["constant"], a.get("dtype")))
     else:
         run_create(case["args"], cnt, viol)
         a = case["args"]
